@@ -325,6 +325,10 @@ def go_build(cmd, extra_tags=(), race=False):
         os.makedirs(os.path.dirname(out), exist_ok=True)
         tags = ",".join(("verif",) + tuple(extra_tags))
         args = ["go", "build", "-overlay", ov, "-tags", tags, "-o", out]
+        if os.environ.get("VERIF_COVER"):
+            # tools/coverage.sh: statement coverage of the implementation under the generated cases (GOCOVERDIR is inherited by the runs)
+            args[2:2] = ["-cover", "-coverpkg=github.com/godaddy/asherah/go/appencryption/...,github.com/godaddy/asherah/go/securememory/...,"
+                                   "github.com/godaddy/asherah/server/go/..."]
         env = dict(GOENV)
         if race:
             args.insert(2, "-race")
